@@ -83,10 +83,11 @@ Mutation(name, exact) ==
     /\ ends' = Ev.ends /\ pieces' = Ev.pieces
     /\ pre' = [op |-> name, ends |-> ends, pieces |-> pieces]
     /\ Keep(<< kind, handle, off, last, vprev, vlast >>)
-    /\ IF ~(FiniteT(pieces) /\ FiniteT(Ev.pieces) /\ InRangeT(exact)) THEN TRUE
+    /\ IF ~(FiniteT(pieces) /\ InRangeT(exact)) THEN TRUE
        ELSE /\ Tally(11, TRUE)
+            /\ JudgeIn("scalar", FiniteT(Ev.pieces), "non-finite result for finite in-range operands")
             /\ JudgeIn("scalar", Ev.ends = ends, "breakpoints changed")
-            /\ JudgeIn("scalar", TableRnd(Ev.pieces, exact), "piece is not the operation applied to it alone")
+            /\ JudgeIn("scalar", ~FiniteT(Ev.pieces) \/ TableRnd(Ev.pieces, exact), "piece is not the operation applied to it alone")
 
 TraceScale     == Mutation("scale", L!ScaleX(ValsT(pieces), Val(Ev.s)))
 TraceNeg       == Mutation("neg", L!NegX(ValsT(pieces)))
@@ -102,7 +103,7 @@ TraceDerive ==
     /\ ends' = Ev.ends /\ pieces' = Ev.pieces
     /\ pre' = [op |-> "derive", ends |-> ends, pieces |-> pieces]
     /\ Keep(<< kind, handle, off, last, vprev, vlast >>)
-    /\ IF ~(FiniteT(pieces) /\ FiniteT(Ev.pieces)) THEN TRUE
+    /\ IF ~(FiniteT(pieces) /\ InRangeT(L!DeriveX(ValsT(pieces)))) THEN TRUE
        ELSE LET exact == L!DeriveX(ValsT(pieces)) IN
             /\ Tally(11, TRUE)
             /\ JudgeIn("derive", Ev.ends = ends, "breakpoints changed")
@@ -154,11 +155,13 @@ TraceIntegrate ==
     /\ pre' = [op |-> "integrate", ends |-> ends, pieces |-> pieces]
     /\ Keep(<< handle, off, last, vprev, vlast >>)
     /\ IF kind = "log"
-       THEN IF ~(WF /\ FiniteT(pieces) /\ FiniteT(Ev.pieces) /\ PosAll(ends) /\ PosAll(<< Ev.kx >>) /\ IsFinite(Ev.ky) /\ InRange(Val(Ev.ky))) THEN TRUE
+       THEN IF ~(WF /\ FiniteT(pieces) /\ PosAll(ends) /\ PosAll(<< Ev.kx >>) /\ IsFinite(Ev.ky) /\ InRange(Val(Ev.ky))
+                      /\ Finite(ends) /\ IsFinite(Ev.kx) /\ InRange(Val(Ev.kx)) /\ (\A j \in 1..Len(ends) : InRange(Val(ends[j])))) THEN TRUE
             ELSE /\ Tally(11, TRUE)
                  /\ JudgeIn("integrate", Ev.ends = ends /\ Ev.kind = (IF Len(pieces[1]) = 5 THEN "q" ELSE "intoflog"), "breakpoints or form changed")
-                 /\ JudgeIn("integrate", LogIntegrateOK(Val(Ev.kx), Val(Ev.ky)), "piecewise integral of a log-polynomial")
-       ELSE IF ~(WF /\ FiniteT(pieces) /\ FiniteT(Ev.pieces) /\ Finite(ends) /\ IsFinite(Ev.kx) /\ IsFinite(Ev.ky)
+                 /\ JudgeIn("integrate", FiniteT(Ev.pieces), "non-finite result for finite in-range input")
+                 /\ JudgeIn("integrate", ~FiniteT(Ev.pieces) \/ LogIntegrateOK(Val(Ev.kx), Val(Ev.ky)), "piecewise integral of a log-polynomial")
+       ELSE IF ~(WF /\ FiniteT(pieces) /\ Finite(ends) /\ IsFinite(Ev.kx) /\ IsFinite(Ev.ky)
                  /\ InRange(Val(Ev.ky))
                  /\ \A j \in 1..Len(pieces) :
                        /\ TermsInScope(B!Indef(Vals(pieces[j])), Val(Ev.kx), 9)
@@ -166,7 +169,8 @@ TraceIntegrate ==
                        /\ j > 1 => TermsInScope(B!Indef(Vals(pieces[j])), Val(ends[j - 1]), 9)) THEN TRUE
             ELSE /\ Tally(11, TRUE)
                  /\ JudgeIn("integrate", Ev.ends = ends, "breakpoints changed")
-                 /\ JudgeIn("integrate", IntegrateOK(Val(Ev.kx), Val(Ev.ky)), "piecewise integral")
+                 /\ JudgeIn("integrate", FiniteT(Ev.pieces), "non-finite result for finite in-range input")
+                 /\ JudgeIn("integrate", ~FiniteT(Ev.pieces) \/ IntegrateOK(Val(Ev.kx), Val(Ev.ky)), "piecewise integral")
 
 \* Library!MergeFrom with breakpoints as bit patterns (IEEE comparisons) and pieces as exact values
 RECURSIVE MergeBitsFrom(_, _, _, _, _, _)
@@ -187,7 +191,7 @@ Combine(name, sub) ==
     /\ ends' = Ev.ends /\ pieces' = Ev.pieces
     /\ pre' = [op |-> name, ends |-> ends, pieces |-> pieces]
     /\ Keep(<< kind, handle, off, last, vprev, vlast >>)
-    /\ IF ~(WF /\ FiniteT(pieces) /\ FiniteT(Ev.gpieces) /\ FiniteT(Ev.pieces)) THEN TRUE
+    /\ IF ~(WF /\ FiniteT(pieces) /\ FiniteT(Ev.gpieces)) THEN TRUE
        ELSE LET f == [ends |-> ends, pieces |-> ValsT(pieces)]
                 g == [ends |-> Ev.gends, pieces |-> ValsT(Ev.gpieces)]
                 \* the merge compares breakpoints: run it on bit patterns with the IEEE order
@@ -195,7 +199,7 @@ Combine(name, sub) ==
             IN  /\ Tally(11, TRUE) /\ Tally(14, TRUE)
                 /\ JudgeIn("combine", P!WellFormed(Ev.ends), "result not well-formed")
                 /\ JudgeIn("combine", Ev.ends = r.ends, "merged breakpoints")
-                /\ JudgeIn("combine", InRangeT(r.pieces) => TableRnd(Ev.pieces, r.pieces), "combined pieces")
+                /\ JudgeIn("combine", InRangeT(r.pieces) => (FiniteT(Ev.pieces) /\ TableRnd(Ev.pieces, r.pieces)), "combined pieces")
 
 TraceAdd == Combine("add", FALSE)
 TraceSub == Combine("sub", TRUE)
